@@ -133,6 +133,24 @@ def facts(read, die, define):
     if not re.search(r"indexes\.num_edges\s*==\s*self->edges\.num_rows", hi):
         copy_ok = False
     out.append("Definition C09_copy_checks_has_index : bool := %s." % b(copy_ok))
+    # C09-11 class: parent validation of tsk_mutation_table_keep_rows
+    mk = _func_body(t, "tsk_mutation_table_keep_rows", die)
+    if re.search(r"if\s*\(\s*pj\s*!=\s*TSK_NULL\s*\)\s*\{\s*if\s*\(\s*pj\s*<\s*0\s*\|\|\s*pj\s*>=", mk):
+        mk_strict = True
+    elif re.search(r"if\s*\(\s*pj\s*>=\s*0\s*\)", mk):
+        mk_strict = False
+    else:
+        die("C09: unrecognised parent validation in tsk_mutation_table_keep_rows")
+    out.append("Definition C09_mutation_keep_rows_strict : bool := %s." % b(mk_strict))
+    # C09-12 class: the integrity check at the entry of deduplicate_sites
+    dd = _func_body(t, "tsk_table_collection_deduplicate_sites", die)
+    if re.search(r"tsk_table_collection_check_integrity\(\s*self,\s*TSK_CHECK_SITE_ORDERING\s*\)", dd):
+        dd_full = True
+    elif re.search(r"check_site_integrity\(", dd):
+        dd_full = False
+    else:
+        die("C09: unrecognised integrity check in tsk_table_collection_deduplicate_sites")
+    out.append("Definition C09_dedup_full_integrity : bool := %s." % b(dd_full))
     m = re.search(r"^#define\s+HARTIGAN_MAX_ALLELES\s+(\d+)", read("c/tskit/trees.c"), re.M)
     if not m:
         die("C09: HARTIGAN_MAX_ALLELES")
